@@ -4,6 +4,7 @@
 (*   {"ev":"reset"}                                                                                  *)
 (*   {"ev":"TunSend","n":"A","a":"b1", post...}      {"ev":"Retry","n":"A","a":"b1", post...}        *)
 (*   {"ev":"Deliver","n":"B","id":3,"via":"A", post...}     {"ev":"Tick"}                             *)
+(*   a Deliver line may carry "late":[ok,..]: inside packets handled while the delivery was in progress *)
 (* post = the acting node's projected state after the step and what it emitted:                      *)
 (*   "hosts":[{"a":..,"l":[lidx..]}], "tuns":[{lidx,ridx,addrs,peer,init,hsTime,hs1,hs2,remote}],     *)
 (*   "pend":[{a,ready,idx,tries,queued,hs1}], "out":[{"id":..,"to":..}], "tunout":k                   *)
@@ -50,9 +51,11 @@ TraceReset == /\ IsEvent("reset")
 TraceTunSend == /\ IsEvent("TunSend") /\ TunSend(Log[l].n, Log[l].a, Log[l].ok) /\ Match(Log[l].n, Log[l])
 TraceRetry   == /\ IsEvent("Retry")   /\ Retry(Log[l].n, Log[l].a, Log[l].k) /\ Match(Log[l].n, Log[l])
 TraceDeliver == /\ IsEvent("Deliver")
-                /\ LET n == Log[l].n  id == Log[l].id  via == Log[l].via IN
+                /\ LET n == Log[l].n  id == Log[l].id  via == Log[l].via
+                       late == IF "late" \in DOMAIN Log[l] THEN Log[l].late ELSE <<>> IN
                    /\ id \in 1..Len(msgs)
-                   /\ (RecvHs1(n, id, via) \/ RecvHs2(n, id, via) \/ RecvData(n, id, via))
+                   /\ \/ late = <<>> /\ (RecvHs1(n, id, via) \/ RecvData(n, id, via))
+                      \/ RecvHs2(n, id, via, late)
                    /\ Match(n, Log[l])
 TraceTick    == IsEvent("Tick") /\ Tick
 
